@@ -14,4 +14,9 @@ CHECKS["C18"] = checks_audio.check_c18
 CHECKS["C19"] = checks_misc.check_c19
 CHECKS["C20"] = checks_misc.check_c20
 CHECKS["C15"] = checks_query.check_c15
+
+# growth beyond the listed properties (not in MANIFEST.checks)
+from . import checks_extra
+CHECKS["X01"] = checks_extra.check_scripts
+CHECKS["X02"] = checks_extra.check_scripts
 REPLAYERS = {}
